@@ -203,6 +203,22 @@ struct ScopeHistory {
          if (ds.size() != group.size()) V("decl:decl-set-size", "decl_set() has " + std::to_string(ds.size()) + " members, " + std::to_string(group.size()) + " declarations share the name and type");
          else { std::size_t j = 0; for (auto& m : ds) { if (&m != group[j]) { V("decl:decl-set-order", "decl_set() is not the sharing declarations in entry order"); break; } ++j; } }
       }
+      // 5. the same questions, all asked first and all examined afterwards (a client that gathers the decl-sets, masters and
+      //    overload sets of a scope before walking them): an answer must not change because another declaration was asked
+      {
+         std::vector<const Sequence<Decl>*> sets; std::vector<const Decl*> masters; std::vector<Optional<Overload>> ovls;
+         for (auto& r : model) { sets.push_back(&r.decl->decl_set()); try { masters.push_back(&r.decl->master()); } catch (const std::logic_error&) { masters.push_back(nullptr); } ovls.push_back((*scope)[*r.name]); }
+         for (std::size_t i = 0; i < model.size(); ++i) {
+            auto& r = model[i];
+            const std::vector<const Decl*>& group = groups[std::make_pair(r.name, r.type)];
+            ctx().count("answers_gathered_before_examination");
+            if (masters[i] != group.front()) V("decl:master:gathered", "master(), asked for every declaration of the scope before any answer was examined, is not the first declaration with that name and type");
+            if (sets[i]->size() != group.size()) V("decl:decl-set-size:gathered", "a decl_set() obtained before other declarations were asked for theirs has " + std::to_string(sets[i]->size()) + " members afterwards, " + std::to_string(group.size()) + " declarations share the name and type");
+            else { std::size_t j = 0; for (auto& m : *sets[i]) { if (&m != group[j]) { V("decl:decl-set-order:gathered", "a decl_set() obtained before other declarations were asked for theirs does not list the sharing declarations in entry order afterwards"); break; } ++j; } }
+            if (!ovls[i].is_valid()) V("lookup:declared-name-not-found:gathered", "a declared name has no overload set");
+            else { auto got = ovls[i].get()[*r.type]; if (!got.is_valid() || &got.get() != group.front()) V("select:not-first-declaration:gathered", "an overload set obtained before other names were looked up does not select the first declaration with that name and type afterwards"); }
+         }
+      }
    }
 
    void live_trees()
@@ -294,6 +310,14 @@ static void homogeneous(std::uint64_t seed, int hist)
       if (!prod || prod->size() != members.size()) V(k + "scope-type", "scope type is not the product of the member types");
       else for (std::size_t j = 0; j < members.size(); ++j) if (&(*prod)[j] != types[j]) { V(k + "scope-type", "scope type component differs from member type"); break; }
       for (int f = 0; f < 3; ++f) if (sc[*ids[n + f]].is_valid()) V(k + "foreign-name-found", "a name never declared has an overload set");
+      // every member asked for its decl-set and master first, every answer examined afterwards
+      std::vector<const Sequence<Decl>*> sets; std::vector<const Decl*> masters;
+      for (auto d : members) { sets.push_back(&d->decl_set()); masters.push_back(&d->master()); }
+      for (std::size_t j = 0; j < members.size(); ++j) {
+         ctx().count("answers_gathered_before_examination");
+         if (sets[j]->size() != 1 || &*sets[j]->begin() != members[j]) { V(k + "decl-set:gathered", "the decl-set of a unique declaration, obtained before its siblings were asked for theirs, is not the singleton of that declaration afterwards"); break; }
+         if (masters[j] != members[j]) { V(k + "master:gathered", "a unique declaration's master is not itself"); break; }
+      }
    };
    // parameters (through a Mapping)
    {
@@ -421,7 +445,7 @@ static void body(Ctx& C)
    C.assume("each (name,type) pair is used by one declaration kind, as the property's quantifier states");
    C.assume("names inside one parameter list / enumeration are pairwise distinct");
    for (int k = 0; k < NKIND; ++k) C.need(std::string("declared:") + kind_name[k]);
-   C.need("redeclarations"); C.need("probes_around_declarations"); C.need("name_lookups"); C.need("type_lookups"); C.need("table_validations");
+   C.need("answers_gathered_before_examination"); C.need("redeclarations"); C.need("probes_around_declarations"); C.need("name_lookups"); C.need("type_lookups"); C.need("table_validations");
    C.need("members_checked:parameter"); C.need("members_checked:enumerator"); C.need("members_checked:base"); C.need("members_checked:eh-parameter");
    Rng seeds(C.seed);
    const int nshort = C.thorough ? 1500 : 50;
